@@ -44,14 +44,37 @@ def units_for(prop):
             if any(prop in f.get("props", []) for f in spec["functions"])]
 
 
-def bridge_targets(units=None):
-    """lake targets that re-prove the bridges of the given units (all units when None)"""
+_CUR_PROP = None      # the property of the check that called regen() last (one check per process)
+
+
+def bridge_targets(units=None, prop=None):
+    """lake targets that re-prove the bridges of the given units (all units when None).  Inside a check (after
+    `regen(ctx, ..)`) only the modules of the targets registered with THAT property: a target may name its own
+    bridge module ("module"), so that a refactoring of a neighbouring function of the same C file, wired to
+    another property or to none, cannot break this check."""
     reg = registry()
-    return [spec["bridge_module"] for u, spec in reg.items() if units is None or u in units]
+    prop = prop or _CUR_PROP
+    out = []
+    for u, spec in reg.items():
+        if units is not None and u not in units:
+            continue
+        for f in spec["functions"]:
+            if prop is not None and prop not in f.get("props", []):
+                continue
+            m = f.get("module", spec["bridge_module"])
+            if m not in out:
+                out.append(m)
+    return out
 
 
 def regen(ctx, units=None, repo=None):
-    """Translate; returns True when every registered function of the units translated."""
+    """Translate; returns True when every registered function of the units that THIS property uses translated
+    (a unit is always translated as a whole; targets of the same C file that are wired to other properties, or to
+    none, are regenerated too, but their failure is only logged here: it is reported by their own checks)."""
+    global _CUR_PROP
+    prop = getattr(ctx, "prop", None)
+    _CUR_PROP = prop
+    reg = registry()
     tool = _tool()
     with open(os.path.join(LEAN_DIR, ".lock"), "w") as lk:
         fcntl.flock(lk, fcntl.LOCK_EX)
@@ -59,7 +82,17 @@ def regen(ctx, units=None, repo=None):
     for path in changed:
         msg = "Gen/%s changed (re-translated from the tree under check)" % os.path.basename(path)
         ctx.log(msg) if hasattr(ctx, "log") else None
+    mine = []
     for (unit, fn, why) in failures:
+        props = None
+        for f in reg.get(unit, {}).get("functions", []):
+            if f["name"] == fn:
+                props = f.get("props", [])
+        if prop is not None and props is not None and prop not in props:
+            if hasattr(ctx, "log"):
+                ctx.log("c2lean: %s.%s (not used by %s) no longer translates: %s" % (unit, fn, prop, why[:200]))
+            continue
+        mine.append((unit, fn, why))
         ctx.broken.append(("P-BROKEN", "c2lean:%s.%s" % (unit, fn),
                            "the function is no longer translatable (bridge to the model lost): " + why))
-    return not failures
+    return not mine
